@@ -17,7 +17,7 @@ ID = "C10"
 LEVEL = "fault_enumeration"
 RULE = ("a case is (history of 2-5 loky Parallel calls, with/without `with`, n_jobs 2-4) x one fault: victims 1..n_jobs x how "
         "{SIGKILL, SIGSEGV, os._exit(3), os._exit(chosen status 0..255), SIGTERM} x instant {arg_unpickle, task_start, mid_task, task_end, result_pickle, "
-        "result_send_small, result_send_large, idle_between_calls, next_call_startup, next_call_startup_other_n_jobs (the next call asks for another n_jobs, so the executor is being resized or gracefully replaced when the idle worker dies), executor_replacement / executor_resize (a generator call is running when a second call "
+        "result_send_small, result_send_large, idle_between_calls (signals from outside, or a thread left behind in the worker ending it with a chosen status - 0 included - for one, all but one or all idle workers), next_call_startup, next_call_startup_other_n_jobs (the next call asks for another n_jobs, so the executor is being resized or gracefully replaced when the idle worker dies), executor_replacement / executor_resize (a generator call is running when a second call "
         "with other executor arguments / another n_jobs makes loky shut the executor down gracefully or resize it, and the worker dies while that waits)}; the quick tier enumerates every "
         "instant x how once, the thorough tier crosses them with victims, n_jobs, call position and batch size; "
         "distinct_nontrivial counts distinct (instant, how, victims, n_jobs, call index, managed) whose fault really "
@@ -30,8 +30,8 @@ ASSUMPTIONS = [
     "fan-out is limited to 6 cases at a time so that machine load is not the fault",
 ]
 SHARDS = {"quick": 6, "thorough": 6}
-FLOORS = {"quick": {"cases_with_fault_observed": 25, "calls_checked": 70, "instants_covered": 12, "deaths_while_the_executor_is_replaced_or_resized": 6},
-          "thorough": {"cases_with_fault_observed": 300, "calls_checked": 1200, "instants_covered": 12, "deaths_while_the_executor_is_replaced_or_resized": 80}}
+FLOORS = {"quick": {"cases_with_fault_observed": 25, "calls_checked": 70, "instants_covered": 12, "deaths_while_the_executor_is_replaced_or_resized": 6, "idle_workers_ending_with_a_chosen_exit_status": 8},
+          "thorough": {"cases_with_fault_observed": 300, "calls_checked": 1200, "instants_covered": 12, "deaths_while_the_executor_is_replaced_or_resized": 80, "idle_workers_ending_with_a_chosen_exit_status": 80}}
 CHILD = os.path.join(harness.VERIF, "checks", "c10_child.py")
 INSTANTS = ["arg_unpickle", "task_start", "mid_task", "task_end", "result_pickle", "result_send_small", "result_send_large",
             "idle_between_calls", "next_call_startup", "executor_replacement", "executor_resize", "next_call_startup_other_n_jobs"]
@@ -58,6 +58,11 @@ def cases(tier, seed):
             # abrupt exits with a chosen status: whatever the number, a worker that vanishes mid-call is a dead worker
             yield mk(rng, i, rng.choice(["task_start", "mid_task", "task_end"]), f"exit:{code}")
             i += 1
+        for code, v in ((0, "all"), (0, 1), (0, "all-but-one"), (1, "all"), (0, "all"), (3, 1)):
+            # an IDLE worker ending with a status of its own choosing (a thread left behind calls os._exit): status 0 looks
+            # like a clean exit; among the idle workers one holds the call queue's reader lock, so all / all but one of them die
+            yield mk(rng, i, "idle_between_calls", f"exit:{code}", victims=v)
+            i += 1
         for _ in range(10):
             # the window (executor being resized / replaced at the start of the next call) is a few ms wide
             yield mk(rng, i, "next_call_startup_other_n_jobs", "SIGKILL", victims=rng.choice([1, 1, 2]))
@@ -74,6 +79,9 @@ def cases(tier, seed):
             for _ in range(5):
                 yield mk(rng, i, "next_call_startup_other_n_jobs", "SIGKILL", victims=rng.choice([1, 1, 2]))
                 i += 1
+            for _ in range(3):
+                yield mk(rng, i, "idle_between_calls", f"exit:{rng.choice([0, 0, 0, 1, 2, 137, 255])}", victims=rng.choice([1, "all", "all", "all-but-one"]))
+                i += 1
             for _ in range(4):
                 yield mk(rng, i, rng.choice(["task_start", "mid_task", "task_end", "result_pickle"]), f"exit:{rng.choice([0, 1, 2, 127, 128, 129, 137, 139, 143, 160, 161, 192, 193, 200, 254, 255])}", victims=rng.choice([1, 1, 2]))
                 i += 1
@@ -85,6 +93,7 @@ def mk(rng, i, inst, how, victims=1):
         # only one idle worker holds the call queue's reader lock: killing all but one makes it likely that the holder dies
         # and a survivor is left behind it
         victims = rng.choice([1, J - 1, J - 1])
+    victims = {"all": J, "all-but-one": J - 1}.get(victims, victims)
     victims = min(victims, J)
     N = rng.choice([J, 2 * J, 3 * J + 1])
     ncalls = rng.randint(2, 5)
@@ -126,6 +135,9 @@ def run_case(case, ctx):
         desc = dict(case)
         key_inst = f"kill-instant={f['instant']}"
         ctx.add("instants_covered", f["instant"])
+        if f["instant"] == "idle_between_calls" and str(f["how"]).startswith("exit:"):
+            ctx.count("idle_workers_ending_with_a_chosen_exit_status", f["victims"])
+            ctx.add("idle_exit_statuses", f["how"])
         if r["result"] is None:
             prog = []
             try:
